@@ -334,3 +334,26 @@ def run(facts):
     res.floor("pointer sources", tot_src, 40)
     res.floor("functions with a pointer source and a buffer-moving call", both, 4)
     return res
+
+
+def run_deep(facts):
+    """thorough tier: the same dataflow on every function with its crate-local callees spliced in (two levels): a pointer handed to a helper
+    as an argument and used there after the helper has moved the buffer is only visible in the caller's view"""
+    from .inline import inlined
+    res = Result("A21+views", "A21 on the inlined views of every function (helpers spliced in, two levels)")
+    a = A21(facts)
+    n = 0
+    for b in facts.fn_bodies():
+        if facts.is_test(b) or b.kind not in ("fn", "assoc_fn"):
+            continue
+        ib = inlined(facts, b, depth=2)
+        if not (ib._cache.get("inlined_from") or ()) or not any(is_rawptr_ty(l["ty"]) for l in ib.locals):
+            continue
+        n += 1
+        viol, n_src, n_inv = a.analyse(ib)
+        for key, (loc, text) in sorted(viol.items()):
+            res.bad(key + " (in the view of %s)" % b.id.rsplit("::", 1)[-1], b.loc(), text)
+        if not viol:
+            res.ok("%s|pointers fresh in the inlined view" % b.id, b.loc(), "%d pointer source(s), %d buffer-moving call(s)" % (n_src, n_inv), nontrivial=bool(n_src and n_inv))
+    res.floor("inlined views analysed", n, 20)
+    return res
